@@ -15,6 +15,7 @@ class Ctx:
     def rng(s, salt=0): return np.random.default_rng([s.seed, salt, 4242])
 
 nb, per = int(sys.argv[1]), int(sys.argv[2]); first = int(sys.argv[3]) if len(sys.argv) > 3 else 1000
+KNOWN = {k["signature"]: k["id"] for k in json.load(open(os.path.join(HERE, "known_findings.json")))["findings"] if isinstance(k, dict) and k.get("status") == "known"}
 ALL = {"C01","C02","C03","C04","C05","C06","C07","C08","C09","C10","C11","C12","C18"}
 agg = collections.Counter(); t0 = time.time()
 for b in range(nb):
@@ -33,13 +34,16 @@ for b in range(nb):
         try:
             run, res = runs.monitored_run(spec, ALL)
         except Exception as e:
+            if common.is_env_crash(e):
+                agg["skipped third-party crash " + type(e).__name__] += 1
+                continue
             agg["CRASH " + type(e).__name__] += 1
             print("CRASH", first + b, repr(e)[:300], json.dumps(spec), flush=True)
             continue
         for pid, vs in res.items():
             for v in vs[:1]:
-                if v["signature"] == "C18/no-progress/all-active-demes-hibernating":
-                    agg["known D13"] += 1
+                if v["signature"] in KNOWN:
+                    agg["known " + KNOWN[v["signature"]]] += 1
                     continue
                 agg["MON " + v["signature"]] += 1
                 print("MONITOR", first + b, v["signature"], v["detail"][:300], json.dumps(spec), flush=True)
